@@ -151,6 +151,10 @@ end:
 }
 
 func (st *Storage) Put(k, b []byte, opt *leveldbOpt.WriteOptions) error {
+	if err := verifFaultPoint(st, "put", k, nil); err != nil {
+		return err
+	}
+
 	db, err := st.db()
 	if err != nil {
 		return err
@@ -164,6 +168,10 @@ func (st *Storage) Put(k, b []byte, opt *leveldbOpt.WriteOptions) error {
 }
 
 func (st *Storage) Delete(k []byte, opt *leveldbOpt.WriteOptions) error {
+	if err := verifFaultPoint(st, "delete", k, nil); err != nil {
+		return err
+	}
+
 	db, err := st.db()
 	if err != nil {
 		return err
@@ -177,6 +185,10 @@ func (st *Storage) Delete(k []byte, opt *leveldbOpt.WriteOptions) error {
 }
 
 func (st *Storage) Batch(batch *leveldb.Batch, wo *leveldbOpt.WriteOptions) error {
+	if err := verifFaultPoint(st, "batch", nil, batch); err != nil {
+		return err
+	}
+
 	db, err := st.db()
 	if err != nil {
 		return err
